@@ -46,8 +46,29 @@ SeqChoices(p, o) ==     \* repeated member: 0 (only if min = 0), 1 or 2 items
   (IF o[1] = 0 THEN {Nil} ELSE {}) \cup {SeqV(<<a>>) : a \in xs} \cup {SeqV(<<p2[1], p2[2]>>) : p2 \in PairOf(xs)}
 MemberChoices(p, o) == IF o[2] > 1 THEN SeqChoices(p, o) ELSE LeafChoices(p, o)
 
+\* a REQUEST may spell a leaf in any way the lexical space allows (SpyneLexical): the cases send
+\* these variants; what the function receives and what the response carries is the value itself
+ReqLit(p, x) ==
+  CASE p = "DateTime" /\ x = "2020-02-29T23:59:58+00:00" -> "2020-02-29T23:59:58Z"
+    [] p = "DateTime" /\ x = "1999-12-31T00:00:00.500000-04:30" -> "1999-12-31T00:00:00.5-04:30"
+    [] p = "Double" /\ x = "1.5" -> "1.5E0" [] p = "Double" /\ x = "-0.25" -> "-.25"
+    [] p = "Decimal" /\ x = "1.5" -> "+1.50" [] p = "Integer" /\ x = "5" -> "+5" [] p = "Integer8" /\ x = "127" -> "+0127"
+    [] p = "Boolean" /\ x = "true" -> "1" [] p = "Boolean" /\ x = "false" -> "0"
+    [] p = "Uuid" /\ x = "12345678-1234-1234-1234-123456789abc" -> "12345678-1234-1234-1234-123456789ABC"
+    [] OTHER -> x
+RECURSIVE SpellV(_, _), FlatF(_)
+FlatF(t) == (IF t.hasbase THEN FlatF(t.base) ELSE <<>>) \o t.fields
+SpellV(t, v) ==
+  IF v = Nil THEN Nil
+  ELSE IF v[1] = "seq" THEN <<"seq", [k \in 1..Len(v[2]) |-> SpellV(IF t.k = "arr" THEN t.of ELSE t, v[2][k])]>>
+  ELSE IF t.k = "prim" THEN <<"leaf", ReqLit(t.p, v[2])>>
+  ELSE IF t.k = "attr" THEN <<"leaf", ReqLit(t.of.p, v[2])>>
+  ELSE IF t.k = "obj" THEN <<"obj", v[2], [k \in 1..Len(v[3]) |-> SpellV(FlatF(t)[k].t, v[3][k])]>>
+  ELSE v
 Case(id, style, args, vals, rets, rvals) ==
   [id |-> id, tns |-> "tns", method |-> "f", style |-> style, args |-> args, vals |-> vals,
+   reqvals |-> [k \in 1..Len(vals) |-> SpellV(args[k].t, vals[k])],
+   inh |-> <<>>, inhvals |-> <<>>, outh |-> <<>>, outhvals |-> <<>>,        \* SOAP headers (T9)
    rets |-> rets, rmin |-> [i \in 1..Len(rets) |-> 0], rmax |-> [i \in 1..Len(rets) |-> 1], rvals |-> rvals, poly |-> FALSE]
 
 \* T1: one leaf argument with every occurrence choice; the value is echoed back (single occurrence)
@@ -106,5 +127,15 @@ T8 == {Case("T8", "bare", <<F("c", C8, 1, 1)>>, <<v>>, <<C8>>, <<v>>) : v \in {O
                   <<Leaf(CHOOSE y \in LeafVals(p) : TRUE)>>) : p \in {"Integer", "Unicode", "Double", "Date"}}
       \cup {Case("T8", "out_bare", <<F("a", Prim("Integer"), 0, 1)>>, <<Leaf("5")>>, <<C8>>, <<ObjV("C8", <<Leaf("5"), Leaf("hello")>>)>>)}
 
-Cases == T1 \cup T2 \cup T3 \cup T4 \cup T5 \cup T6 \cup T7 \cup T8
+\* T9: SOAP headers - two declared request headers and two declared response headers, each of
+\* which may be absent; headers are written in declaration order, absent ones are skipped
+H1 == Obj("Session", "tns", <<F("id", Prim("Unicode"), 0, 1)>>)
+H2 == Obj("Quota", "urn:other", <<F("left", Prim("Integer"), 0, 1), F("unit", Prim("Unicode"), 0, 1)>>)
+H1Vals == {Nil, ObjV("Session", <<Leaf("s-1")>>)}
+H2Vals == {Nil, ObjV("Quota", <<Leaf("5"), Leaf("MB")>>), ObjV("Quota", <<Nil, Leaf("MB")>>)}
+T9 == {[Case("T9", "wrapped", <<F("a", Prim("Integer"), 0, 1)>>, <<Leaf("5")>>, <<Prim("Integer")>>, <<Leaf("5")>>)
+          EXCEPT !.inh = <<H1, H2>>, !.inhvals = <<i1, i2>>, !.outh = <<H1, H2>>, !.outhvals = <<o1, o2>>] :
+             i1 \in H1Vals, i2 \in H2Vals, o1 \in H1Vals, o2 \in H2Vals}
+
+Cases == T9 \cup T1 \cup T2 \cup T3 \cup T4 \cup T5 \cup T6 \cup T7 \cup T8
 =============================================================================
